@@ -468,6 +468,13 @@ def dft_class_one_transformer_many_inputs(mask, pixel_scales, origin, uv, image,
             if not _close(got, A @ M, float(np.abs(M).sum())):
                 return "call %d of transform_mapping_matrix on one transformer (preload=%s) != operator applied to THIS matrix; max abs error %.3g" % (
                     k + 1, preload, float(np.abs(got - A @ M).max()))
+        W_ = matrix.copy()                      # one array object, refilled in place between two calls
+        t.transform_mapping_matrix(mapping_matrix=W_)
+        W_ *= -0.5
+        W_[0, 0] += 1.0
+        got = np.asarray(t.transform_mapping_matrix(mapping_matrix=W_))
+        if not _close(got, A @ W_, float(np.abs(W_).sum())):
+            return "transform_mapping_matrix (preload=%s) called again with the same array object after it was refilled in place transforms its OLD content" % preload
         for k, I in enumerate(ims):
             got = np.asarray(t.visibilities_from(image=aa.Array2D(values=I.copy(), mask=mk)))
             if not _close(got, A @ I, float(np.abs(I).sum())):
